@@ -749,7 +749,12 @@ static void ir2c_yield(uint32_t site) {
   if (ir2c_yield_count == ir2c_yield_at) { ir2c_in_yield = 1; ir2c_yield_site = site; verif_interfere(); ir2c_in_yield = 0; }
 }
 static inline void ir2c_fence(void) {}
-#ifdef IR2C_SPIN_CUT
+#ifdef IR2C_SPIN_BLOCKS
+/* own sequentialisation: the preempting thread must run to completion; if it has to wait for a lock held by the preempted thread the
+   schedule "B completes here" does not exist (B would wait until A resumes, which is the schedule with a later preemption point or B after A).
+   Such a run ends here; it counts as reached (witness) and nothing after it is asserted. */
+static inline void ir2c_spin_hint(void) { if (ir2c_in_yield) { __CPROVER_assert(0, "WITNESS end of harness reachable"); __CPROVER_assume(0); } }
+#elif defined(IR2C_SPIN_CUT)
 /* a spinning thread only re-reads; executions in which it spins are equivalent to ones where it arrives later */
 static inline void ir2c_spin_hint(void) { __CPROVER_assume(0); }
 #else
